@@ -88,14 +88,35 @@ pub enum DateClaim {
   At(i64),
   /// Seconds outside years 0000–9999.
   OutOfRange(i64),
+  /// Not a JSON integer: 0 = "x", 1 = a numeric string, 2 = a fraction (x.5), 3 = an integer beyond 64 bits, 4 = true,
+  /// 5 = an array.
+  Malformed(u8),
 }
 
 impl DateClaim {
   fn value(self) -> Option<i64> {
     match self {
-      DateClaim::Absent => None,
+      DateClaim::Absent | DateClaim::Malformed(_) => None,
       DateClaim::At(v) | DateClaim::OutOfRange(v) => Some(v),
     }
+  }
+  /// The claim as it is written into the claims set.
+  fn json(self) -> Option<Value> {
+    match self {
+      DateClaim::Absent => None,
+      DateClaim::At(v) | DateClaim::OutOfRange(v) => Some(json!(v)),
+      DateClaim::Malformed(k) => Some(match k % 6 {
+        0 => json!("x"),
+        1 => json!("1700000000"),
+        2 => json!(1_700_000_000.5f64),
+        3 => serde_json::from_str("1000000000000000000000000000000").expect("big number"),
+        4 => json!(true),
+        _ => json!([1_700_000_000]),
+      }),
+    }
+  }
+  fn malformed(self) -> bool {
+    matches!(self, DateClaim::Malformed(_))
   }
 }
 
@@ -134,7 +155,16 @@ pub struct Case {
   pub credentials: u8,
   pub typ: Option<String>,
   pub custom: Map<String, Value>,
+  /// Bit 0: no earliest-expiry bound in the options, bit 1: no latest-issuance bound (the library then uses the
+  /// current time, which the oracle only knows to lie between 2020 and 2080).
+  #[serde(default)]
+  pub unset_bounds: u8,
 }
+
+const YEAR_2000: i64 = 946_684_800;
+const YEAR_2020: i64 = 1_577_836_800;
+const YEAR_2080: i64 = 3_471_292_800;
+const YEAR_2090: i64 = 3_786_912_000;
 
 const PRESENTATION_ID: &str = "https://example.edu/presentations/3732";
 const OTHER_ID: &str = "https://example.edu/presentations/1111";
@@ -199,6 +229,22 @@ impl Case {
       IssSel::HolderDocUrlWithFragment => Some(format!("{}#g", doc.did())),
       IssSel::Https => Some(HTTPS_HOLDER.to_string()),
       IssSel::NotAUrl | IssSel::Number => None,
+    }
+  }
+  /// (lowest, highest) value the effective earliest-expiry bound can have.
+  fn expiry_bound(&self) -> (i64, i64) {
+    if self.unset_bounds & 1 != 0 {
+      (YEAR_2020, YEAR_2080)
+    } else {
+      (self.earliest_expiry, self.earliest_expiry)
+    }
+  }
+  /// (lowest, highest) value the effective latest-issuance bound can have.
+  fn issuance_bound(&self) -> (i64, i64) {
+    if self.unset_bounds & 2 != 0 {
+      (YEAR_2020, YEAR_2080)
+    } else {
+      (self.latest_issuance, self.latest_issuance)
     }
   }
   /// Issuance time of the token: `nbf`, else `iat` (VC data model: issuanceDate is carried in nbf).
@@ -279,11 +325,13 @@ impl Case {
       name: "expiry",
       state: match self.exp {
         DateClaim::Absent => Tri::True,
-        DateClaim::At(e) if e >= self.earliest_expiry => Tri::True,
-        DateClaim::At(_) => Tri::False,
-        DateClaim::OutOfRange(_) => Tri::Open,
+        DateClaim::At(e) if e >= self.expiry_bound().1 => Tri::True,
+        DateClaim::At(e) if e < self.expiry_bound().0 => Tri::False,
+        DateClaim::At(_) | DateClaim::OutOfRange(_) | DateClaim::Malformed(_) => Tri::Open,
       },
-      accepted_sig: if self.exp.value().and_then(|e| e.checked_sub(self.earliest_expiry)) == Some(-1) {
+      accepted_sig: if self.unset_bounds & 1 != 0 {
+        "accepted-expired-default-bound".into()
+      } else if self.exp.value().and_then(|e| e.checked_sub(self.earliest_expiry)) == Some(-1) {
         "accepted-expired-at-bound-minus-1".into()
       } else {
         "accepted-expired-before-bound".into()
@@ -293,17 +341,24 @@ impl Case {
       name: "issuance",
       state: match self.issuance() {
         DateClaim::Absent => Tri::True,
-        DateClaim::At(i) if i <= self.latest_issuance => Tri::True,
-        DateClaim::At(_) => Tri::False,
-        DateClaim::OutOfRange(_) => Tri::Open,
+        // a readable nbf is the issuance time whatever sits in iat; a readable iat next to an unreadable nbf, or an
+        // unreadable iat on its own, leaves the issuance time unknown
+        DateClaim::At(i) if i > self.issuance_bound().1 => Tri::False,
+        _ if self.nbf.malformed() || self.iat.malformed() => Tri::Open,
+        DateClaim::At(i) if i <= self.issuance_bound().0 => Tri::True,
+        DateClaim::At(_) | DateClaim::OutOfRange(_) | DateClaim::Malformed(_) => Tri::Open,
       },
-      accepted_sig: if self
+      accepted_sig: if self.unset_bounds & 2 != 0 {
+        "accepted-issued-in-future-default-bound".into()
+      } else if self
         .issuance()
         .value()
         .and_then(|i| i.checked_sub(self.latest_issuance))
         == Some(1)
       {
         "accepted-issued-at-bound-plus-1".into()
+      } else if self.iat.malformed() {
+        "accepted-nbf-after-bound-with-unreadable-iat".into()
       } else if self.nbf != DateClaim::Absent && self.iat != DateClaim::Absent {
         "accepted-nbf-after-bound-with-earlier-iat".into()
       } else {
@@ -390,8 +445,8 @@ pub fn check(case: &Case, obs: &mut Obs) -> CheckResult {
     let o = fixture!(claims.as_object_mut().ok_or("claims are not an object"), "claims JSON");
     // numeric dates exactly as the case says (also the unrepresentable ones)
     for (name, d) in [("exp", case.exp), ("nbf", case.nbf), ("iat", case.iat)] {
-      match d.value() {
-        Some(v) => o.insert(name.into(), json!(v)),
+      match d.json() {
+        Some(v) => o.insert(name.into(), v),
         None => o.remove(name),
       };
     }
@@ -456,10 +511,18 @@ pub fn check(case: &Case, obs: &mut Obs) -> CheckResult {
   if let Some(id) = case.method_id.text(case.target) {
     verification = verification.method_id(fixture!(DIDUrl::parse(&id), "method id"));
   }
-  let validation_options = JwtPresentationValidationOptions::new()
-    .presentation_verifier_options(verification)
-    .earliest_expiry_date(fixture!(ts(case.earliest_expiry), "earliest expiry bound"))
-    .latest_issuance_date(fixture!(ts(case.latest_issuance), "latest issuance bound"));
+  let mut validation_options = JwtPresentationValidationOptions::new().presentation_verifier_options(verification);
+  if case.unset_bounds & 1 == 0 {
+    validation_options =
+      validation_options.earliest_expiry_date(fixture!(ts(case.earliest_expiry), "earliest expiry bound"));
+  }
+  if case.unset_bounds & 2 == 0 {
+    validation_options =
+      validation_options.latest_issuance_date(fixture!(ts(case.latest_issuance), "latest issuance bound"));
+  }
+  if case.unset_bounds != 0 {
+    obs.label(format!("default-bounds:{}", case.unset_bounds));
+  }
 
   // ---- the call under test -----------------------------------------------------------------
   let validator = JwtPresentationValidator::with_signature_verifier(EdDSAJwsVerifier::default());
@@ -482,14 +545,14 @@ pub fn check(case: &Case, obs: &mut Obs) -> CheckResult {
     }
   }
   let mut boundary = false;
-  if let DateClaim::At(e) = case.exp {
+  if let (DateClaim::At(e), 0) = (case.exp, case.unset_bounds & 1) {
     let d = e - case.earliest_expiry;
     if d.abs() <= 1 {
       obs.label(format!("boundary:expiry{d:+}"));
       boundary = true;
     }
   }
-  if let DateClaim::At(i) = case.issuance() {
+  if let (DateClaim::At(i), 0) = (case.issuance(), case.unset_bounds & 2) {
     let d = i - case.latest_issuance;
     if d.abs() <= 1 {
       obs.label(format!("boundary:issuance{d:+}"));
@@ -564,7 +627,7 @@ pub fn check(case: &Case, obs: &mut Obs) -> CheckResult {
         case.aud
       );
       // (an accepted out-of-range date is an open case here; C07 owns it)
-      if !matches!(case.exp, DateClaim::OutOfRange(_)) {
+      if !matches!(case.exp, DateClaim::OutOfRange(_) | DateClaim::Malformed(_)) {
         vensure!(
           obs,
           decoded.expiration_date.map(|t| t.to_unix()) == case.exp.value(),
@@ -574,7 +637,7 @@ pub fn check(case: &Case, obs: &mut Obs) -> CheckResult {
           case.exp.value()
         );
       }
-      if !matches!(case.issuance(), DateClaim::OutOfRange(_)) {
+      if !matches!(case.issuance(), DateClaim::OutOfRange(_)) && !case.nbf.malformed() && !case.iat.malformed() {
         vensure!(
           obs,
           decoded.issuance_date.map(|t| t.to_unix()) == case.issuance().value(),
@@ -704,6 +767,7 @@ fn case_strategy() -> impl Strategy<Value = Case> {
       3 => unix_date_strategy().prop_map(|v| Some(DateClaim::At(v))),
       1 => Just(Some(DateClaim::OutOfRange(MAX_UNIX + 1))),
       2 => Just(Some(DateClaim::Absent)),
+      2 => (0u8..6).prop_map(|k| Some(DateClaim::Malformed(k))),
     ],
     // an iat sitting at a chosen distance from the issuance bound (used when drawn)
     prop::option::weighted(
@@ -725,6 +789,8 @@ fn case_strategy() -> impl Strategy<Value = Case> {
   let misc = (
     prop_oneof![2 => Just(Some("JWT".to_string())), 1 => Just(None)],
     custom_claims_strategy(),
+    // options without one or both date bounds, with dates decades away from the present
+    prop_oneof![17 => Just((0u8, false, false)), 3 => (1u8..4, any::<bool>(), any::<bool>())],
   );
   (selection, claims, misc).prop_map(
     |(
@@ -741,8 +807,21 @@ fn case_strategy() -> impl Strategy<Value = Case> {
         aud,
         credentials,
       ),
-      (typ, custom),
+      (typ, custom, (unset_bounds, exp_future, nbf_future)),
     )| {
+      let (exp, nbf) = (
+        if unset_bounds & 1 != 0 && exp != DateClaim::Absent {
+          DateClaim::At(if exp_future { YEAR_2090 } else { YEAR_2000 })
+        } else {
+          exp
+        },
+        if unset_bounds & 2 != 0 && nbf != DateClaim::Absent {
+          DateClaim::At(if nbf_future { YEAR_2090 } else { YEAR_2000 })
+        } else {
+          nbf
+        },
+      );
+      let iat_near = if unset_bounds & 2 != 0 { None } else { iat_near };
       let iat = match (iat_near, iat_free) {
         (Some(d), _) => DateClaim::At((latest_issuance + d).clamp(MIN_UNIX, MAX_UNIX)),
         (None, Some(c)) => c,
@@ -773,6 +852,7 @@ fn case_strategy() -> impl Strategy<Value = Case> {
         credentials,
         typ,
         custom,
+        unset_bounds,
       }
     },
   )
@@ -803,6 +883,7 @@ fn base_case(target: M) -> Case {
     credentials: 1,
     typ: Some("JWT".into()),
     custom: Map::new(),
+    unset_bounds: 0,
   }
 }
 
@@ -851,6 +932,25 @@ const DEVIATIONS: &[Deviation] = &[
   |c| c.iat = DateClaim::At(1_700_000_000),
   |c| c.iat = DateClaim::At(1_600_000_000),
   |c| c.iat = DateClaim::OutOfRange(i64::MAX),
+  |c| {
+    c.unset_bounds = 1;
+    c.exp = DateClaim::At(YEAR_2000)
+  },
+  |c| {
+    c.unset_bounds = 2;
+    c.nbf = DateClaim::At(YEAR_2090)
+  },
+  |c| {
+    c.unset_bounds = 3;
+    c.exp = DateClaim::At(YEAR_2090);
+    c.nbf = DateClaim::At(YEAR_2000)
+  },
+  |c| c.scope = ScopeSel::Fixed(Scope::Relationship(Rel::CapabilityInvocation)),
+  |c| c.scope = ScopeSel::Fixed(Scope::Relationship(Rel::CapabilityDelegation)),
+  |c| c.iat = DateClaim::Malformed(0),
+  |c| c.iat = DateClaim::Malformed(2),
+  |c| c.nbf = DateClaim::Malformed(1),
+  |c| c.exp = DateClaim::Malformed(0),
   |c| c.jti = false,
   |c| c.vp_id = Dup::Different,
   |c| c.vp_id = Dup::Absent,
